@@ -61,7 +61,7 @@ def small_cases(tier, rng):
                 out.append(s)
     out.sort()
     rng.shuffle(out)
-    out = out[:140] if tier == "quick" else out[:500]
+    out = out[:140] if tier == "quick" else out[:2500]
     return out
 
 
@@ -99,7 +99,7 @@ def run(ctx):
         # all cut sets of short streams (thorough: every stream of <= 12 bytes from the atoms)
         smalls = small_cases(ctx.tier, rng)
         nall = 0
-        for s in (smalls[:150] if thorough else smalls[:40]):
+        for s in (smalls[:2000] if thorough else smalls[:40]):
             for cuts in S.all_cutsets(len(s)):
                 if cuts:
                     cases.append(("chan", 262144, 1073741824, S.pieces(s, cuts), {"stream": "small-allcuts"}))
@@ -131,7 +131,7 @@ def run(ctx):
     unexplained = []
     seg_evals = 0
     streams = []
-    nstreams = 250 if thorough else 90
+    nstreams = 400 if thorough else 90
     for i in range(nstreams):
         s, tags = gen_http.gen_stream(rng, "mutation" if i % 2 else "grammar")
         for mh, mb in gen_http.limits_for(rng, s):
@@ -143,7 +143,7 @@ def run(ctx):
         streams.append((max(1, len(s) - 2), 3, s, "small"))
     head, tails = chunk_tail_streams()
     rng.shuffle(tails)
-    tails = tails[:150] if not thorough else tails[:900]
+    tails = tails[:150] if not thorough else tails
     for s in tails:
         streams.append((262144, len(s) - len(head) + rng.choice([-1, 0, 1, 50]), s, "chunk-tail"))
     dist = {}
